@@ -46,6 +46,8 @@ def generate(tier, rng):
             for yd in subs:
                 ny = nelem(uni, yd)
                 ops = BOPS if ui == 0 else [BOPS[(k + j) % 7] for j in range(2)]
+                if ui == 1 and ny == 1 and yd:
+                    ops = BOPS       # an operand with a single entry but with dimensions (all of one item): every operator, every x
                 for op in ops:
                     k += 1
                     xv = random_values(rng, nx, -6, 6) if op != "pow" else random_values(rng, nx, -3, 3)
@@ -81,6 +83,10 @@ def generate(tier, rng):
                                   op=dict(kind="refl", op=op, c=2)))
             for u in ["neg", "abs", "sign", "absm"]:
                 cases.append(dict(stream="exact", uni=uni, x=x, op=dict(kind="un", op=u)))
+            # in-place abs / sign of the array itself, in every memory layout (the entry under each label changes, no other)
+            for li, u in enumerate(["absi", "signi"]):
+                cases.append(dict(stream="exact", uni=uni, x=dict(x, layout=lay[(k + li) % 3]), op=dict(kind="un", op=u)))
+                cases.append(dict(stream="exact", uni=uni, x=dict(x, layout="F"), op=dict(kind="un", op=u)))
             # the same after an in-place abs()/sign() of ANOTHER array of the same shape: nothing may leak from one call into the next
             for u in ["abs", "sign", "absm"]:
                 cases.append(dict(stream="exact", uni=uni, x=x, op=dict(kind="un", op=u, after_inplace=["abs", "sign"][k % 2])))
@@ -115,7 +121,13 @@ def run_impl(case):
         if op.get("after_inplace"):
             z = build_array(uni, dict(case["x"], values=[-(Fraction(v)) - 7 for v in case["x"]["values"]]))
             getattr(z, op["after_inplace"])(inplace=True)
-        f = {"neg": lambda: -x, "abs": lambda: abs(x), "sign": lambda: x.sign(), "absm": lambda: x.abs()}[u]
+        def inplace(name):
+            def g():
+                getattr(x, name)(inplace=True)
+                return x
+            return g
+        f = {"neg": lambda: -x, "abs": lambda: abs(x), "sign": lambda: x.sign(), "absm": lambda: x.abs(),
+             "absi": inplace("abs"), "signi": inplace("sign")}[u]
     r = observe(f)
     if r["kind"] == "ok":
         r["value"] = observe_array(r["value"], snap=(case["stream"] == "tolerance"))
@@ -158,7 +170,7 @@ def oracle(case, obs):
     op = case["op"]
     k = op["kind"]
     if k == "un":
-        f = {"neg": lambda v: -v, "abs": abs, "absm": abs, "sign": lambda v: (v > 0) - (v < 0)}[op["op"]]
+        f = {"neg": lambda v: -v, "abs": abs, "absm": abs, "absi": abs, "sign": lambda v: (v > 0) - (v < 0), "signi": lambda v: (v > 0) - (v < 0)}[op["op"]]
         exp = Lab(x.dims, {kk: Fraction(f(v)) for kk, v in x.data.items()})
     else:
         if k == "bin":
@@ -193,7 +205,7 @@ def to_coq(case, obs):
     elif k == "refl":
         o = f"(ORefl {COQ_B[op['op']]} {cq_Q(Fraction(op['c']))})"
     else:
-        o = f"(OUn {dict(neg='UNeg', abs='UAbs', absm='UAbs', sign='USign')[op['op']]})"
+        o = f"(OUn {dict(neg='UNeg', abs='UAbs', absm='UAbs', absi='UAbs', sign='USign', signi='USign')[op['op']]})"
     return f"(mk_case {cq_farr(uni, case['x'])} {o} {cq_res(obs, cq_oarr)})"
 
 
